@@ -1,6 +1,6 @@
 SCHK = "verifharness/checks/storagechk"
 _STORAGE_TECH = "stateful (model-based) property-based testing on the full-chain simulator: generated storage contract histories with an oracle over contract state and balances after every transaction"
-WIP["C14"] = dict(
+CHECKS["C14"] = dict(
     level="exploration", engine="E1", technique=_STORAGE_TECH,
     level_text="Generated storage histories biased to closing allocations (cancel / finalize by owner, blobber, stranger; before and after expiry; repeated; followed by operations naming the closed allocation) run on the real chain; every successful close is checked for entitlement, exact refund to the owner (what leaves the contract wallet is what the owner receives), the refund's lower bound (write pool minus the capped cancellation charge), the upper bounds on what blobbers can earn (challenge pool plus capped charge), removal of allocation and challenge pool nodes; every later transaction naming a closed allocation must fail and move nothing.",
     level_note=E1_NOTE + " The cancellation charge bound is cancellation_charge x sum of offers, the contract's own definition.",
